@@ -158,6 +158,12 @@ func isPrefix(a, b []string) bool {
 }
 
 var chkBoundary = vf.Register("every_instruction", func(k *vf.C, c *BoundaryCase) error {
+	// the reference interpreter bounds the program first (its step budget): a generated program that does not end - e.g. a
+	// numeric for at a magnitude where adding the step changes nothing - must not hang the check
+	if r := e1.RunRef(c.Src, nil); r.ParseErr != nil || r.Unspecified != "" {
+		k.Discard("reference: unspecified or over budget")
+		return nil
+	}
 	// fault-free run under a counting context that never fires
 	free := e1.NewOneShotCtx(-1)
 	g0 := e1.RunGopher(c.Src, &e1.GOpts{Ctx: free})
